@@ -522,6 +522,9 @@ func placeSpecialRoot(c *Ctx, op string) {
 	before := ident()
 	c.EmitR(op, "skip", "skip")
 	pfn, err := placer.GetMountPlacer()
+	if len(strings.Fields(op)) > 2 && strings.Fields(op)[2] == "aufs" { // the aufs placer's dispatch (no aufs mount is needed for a single node)
+		pfn, err = placer.NewAufsPlacer(fs.MustAbsolutePath(filepath.Join(base, "aufswork")))
+	}
 	if err != nil {
 		return
 	}
@@ -546,6 +549,63 @@ func placeSpecialRoot(c *Ctx, op string) {
 	c.Distinct(op)
 }
 
+// placeSymlinkRoot: a shelf whose root is a symlink to a file of the host (what a ware whose "." entry is a symlink
+// unpacks to), placed by a mounting placer at a destination that is itself a symlink to another host file: mount(2)
+// follows both. Nothing of the host may end up mounted anywhere, and the victim keeps showing its own content.
+// Recipe: "place-symlink <mount|bindro|aufs>".
+func placeSymlinkRoot(c *Ctx, op string) {
+	how := strings.Fields(op)[1]
+	caseCounter++
+	base := filepath.Join(c.Work, fmt.Sprintf("psl%d", caseCounter))
+	defer rmrf(base)
+	os.MkdirAll(filepath.Join(base, "host"), 0755)
+	os.MkdirAll(filepath.Join(base, "area"), 0755)
+	os.Setenv("RIO_BASE", filepath.Join(base, "riobase"))
+	secret, victim := filepath.Join(base, "host", "secret"), filepath.Join(base, "host", "victim")
+	os.WriteFile(secret, []byte("secret"), 0600)
+	os.WriteFile(victim, []byte("victim"), 0644)
+	shelf := filepath.Join(base, "shelflink")
+	os.Symlink(secret, shelf)
+	c.EmitR(op, "skip", "skip")
+	for _, dstKind := range []string{"absent", "link-to-victim"} {
+		dst := filepath.Join(base, "area", "dst-"+dstKind)
+		if dstKind == "link-to-victim" {
+			os.Symlink(victim, dst)
+		}
+		var jan placer.Janitor
+		var err error
+		switch how {
+		case "bindro":
+			jan, err = placer.BindPlacer(fs.MustAbsolutePath(shelf), fs.MustAbsolutePath(dst), false)
+		case "aufs":
+			var pfn placer.Placer
+			if pfn, err = placer.NewAufsPlacer(fs.MustAbsolutePath(filepath.Join(base, "aufswork"))); err == nil {
+				jan, err = pfn(fs.MustAbsolutePath(shelf), fs.MustAbsolutePath(dst), true)
+			}
+		default:
+			var pfn placer.Placer
+			if pfn, err = placer.GetMountPlacer(); err == nil {
+				jan, err = pfn(fs.MustAbsolutePath(shelf), fs.MustAbsolutePath(dst), true)
+			}
+		}
+		if b, _ := os.ReadFile(victim); string(b) != "victim" || mounted(victim) {
+			c.PropFail("mount-left", fmt.Sprintf("placing (%s) a shelf whose root is a symlink at a destination that is a symlink mounted the host file the shelf link names over the host file the destination link names (it now reads %q)", how, b), op)
+		}
+		if b, e := os.ReadFile(dst); e == nil && string(b) == "secret" && dstKind == "absent" {
+			c.PropFail("placement-tree", fmt.Sprintf("placing (%s) a shelf whose root is a symlink shows the content of the host file the link names instead of a symlink", how), op)
+		}
+		c.H(fmt.Sprintf("place-symlink:%s:%s:err=%v", how, dstKind, err != nil))
+		if jan != nil {
+			jan.Teardown()
+		}
+		for i := 0; i < 3 && (mounted(dst) || mounted(victim)); i++ {
+			syscall.Unmount(dst, 0)
+			syscall.Unmount(victim, 0)
+		}
+	}
+	c.Distinct(op)
+}
+
 func placeEngine(c *Ctx) {
 	if ls := replayLines(); ls != nil {
 		for _, op := range ls {
@@ -553,12 +613,19 @@ func placeEngine(c *Ctx) {
 				placeExec(c, op)
 			} else if strings.HasPrefix(op, "place-special ") {
 				placeSpecialRoot(c, op)
+			} else if strings.HasPrefix(op, "place-symlink ") {
+				placeSymlinkRoot(c, op)
 			}
 		}
 		return
 	}
 	placeSpecialRoot(c, "place-special p")
 	placeSpecialRoot(c, "place-special c")
+	placeSpecialRoot(c, "place-special p aufs")
+	placeSpecialRoot(c, "place-special c aufs")
+	placeSymlinkRoot(c, "place-symlink mount")
+	placeSymlinkRoot(c, "place-symlink bindro")
+	placeSymlinkRoot(c, "place-symlink aufs")
 	n, maxOps := 14, 10
 	if c.Tier == "thorough" {
 		n, maxOps = 200, 36
